@@ -369,8 +369,13 @@ class TreeMod(roundtrip.RTMod):
                 if items is None:
                     return [(OK, unk("splice-items"), st)]
                 ch = list(e[3])
-                if lo > hi or hi > len(ch):
-                    return [(PANIC, ("splice_children range %d..%d out of bounds (%d children)" % (lo, hi, len(ch)), sp), st)]
+                # rowan detaches the children whose position lies in the range (a range reaching past the end is harmless),
+                # then attaches the new elements starting at range.start (which must be a valid position)
+                hi = min(hi, len(ch))
+                if lo > len(ch):
+                    return [(PANIC, ("splice_children insert position %d beyond %d children" % (lo, len(ch)), sp), st)]
+                if lo > hi:
+                    hi = lo
                 removed = ch[lo:hi]
                 ids = []
                 for it in items:
